@@ -23,6 +23,10 @@ CLAIMED = {
          "CFG lock-pair / dominance rules, reaching-definition NOTOUCH dataflow, enumerated arithmetic tables with C widths"),
  "C12": ("arrival table over (count, arrival number): serial path, wake count, return values; counter-writer table; round-separation certificate with an enumerated list-selection table",
          "enumerated forced-branch tables + certificate recognition on fiber_barrier.c and the shared waker"),
+ "C13": ("hazard-pointer typestate (loaded -> published -> re-validated -> dereferenced) at the three publication sites of the FIFO, push terminate/CAS/link order, pop read/CAS/retire order and guards, guarded empty report, head/tail writer table",
+         "typestate rule over the CFG (publish + validating-edge must-pass-through), dominance / guard / memory-order rules on mpmc_fifo.h"),
+ "C14": ("full fence after the slot publication, typestate at every publication site, scan coverage (record walk + slot loop), sort-before-search with comparator and binary-search tables incl. high addresses, reclaim decision table, retire threshold test, threshold-before-publication order, plist capacity table",
+         "fence / dominance rules, typestate, interpreted search and comparator tables, enumerated decision tables on hazard_pointer.{h,c}"),
  "C15": ("terminate-swap-link publication order and memory orders of the MPSC/SPSC producers, guarded advance-copy-return shape of the consumers, head-writer tables, relaxed-MPSC index table and interpreted empty-pass table",
          "CFG dominance / memory-order rules, resolved access-path equality, enumerated index and loop tables on mpsc_fifo.h, spsc_fifo.h, mpsc_relaxed_fifo.h"),
  "C16": ("claim tables of trypush/trypop over (high, low, slot) incl. wrap-around, load order, slot write/clear only behind a won CAS, slot read before the CAS, mask/index tables, counter-writer table",
